@@ -36,6 +36,15 @@ const (
 
 var opKinds = []string{opWrite, opRemove, opCreate, opRename, opTouchO}
 
+// symlink mode (the watched path is a symbolic link to data/v<N>.yml, as with Kubernetes ConfigMaps)
+const (
+	opSwap   = "swap"   // write a new target, re-point the link atomically (temporary link + rename); the old target stays
+	opSwapRm = "swaprm" // same, and the old target is deleted
+	opUnlink = "unlink" // the link is deleted
+)
+
+var symKinds = []string{opSwap, opSwapRm, opUnlink, opTouchO}
+
 var gaps = []time.Duration{0, 5 * time.Millisecond, 500 * time.Millisecond, 1500 * time.Millisecond}
 
 // perform does the operation for real in dir and returns the events the model says it produces.
@@ -65,9 +74,32 @@ func perform(dir, kind string, serial int) []ev {
 		os.WriteFile(t, []byte(content), 0o644)
 		os.Rename(t, f)
 		return []ev{{"conf.yml.tmp", fsnotify.Create}, {"conf.yml.tmp", fsnotify.Write}, {"conf.yml.tmp", fsnotify.Rename}, {"conf.yml", fsnotify.Create}}
+	case opSwap, opSwapRm:
+		old, _ := os.Readlink(f)
+		target := filepath.Join("data", fmt.Sprintf("v%d.yml", serial))
+		os.MkdirAll(filepath.Join(dir, "data"), 0o755)
+		os.WriteFile(filepath.Join(dir, target), []byte(content), 0o644)
+		t := filepath.Join(dir, "conf.yml.lnk")
+		os.Remove(t)
+		if err := os.Symlink(target, t); err != nil {
+			panic(err)
+		}
+		if err := os.Rename(t, f); err != nil {
+			panic(err)
+		}
+		if kind == opSwapRm && old != "" {
+			os.Remove(filepath.Join(dir, old))
+		}
+		return []ev{{"conf.yml.lnk", fsnotify.Create}, {"conf.yml.lnk", fsnotify.Rename}, {"conf.yml", fsnotify.Create}}
+	case opUnlink:
+		if os.Remove(f) != nil {
+			return nil
+		}
+		return []ev{{"conf.yml", fsnotify.Remove}}
 	case opTouchO:
+		_, statErr := os.Stat(filepath.Join(dir, "other.txt"))
 		os.WriteFile(filepath.Join(dir, "other.txt"), []byte(content), 0o644)
-		if serial == 0 {
+		if statErr != nil {
 			return []ev{{"other.txt", fsnotify.Create}, {"other.txt", fsnotify.Write}}
 		}
 		return []ev{{"other.txt", fsnotify.Write}}
@@ -78,9 +110,15 @@ func perform(dir, kind string, serial int) []ev {
 // conformance: the model's events for each operation vs. the real fsnotify (as a set of (name, op bits)).
 func conformance() int {
 	n := 0
-	for _, seq := range [][]string{{opWrite}, {opRemove}, {opRemove, opCreate}, {opRename}, {opTouchO}, {opTouchO, opTouchO}} {
+	for _, seq := range [][]string{{opWrite}, {opRemove}, {opRemove, opCreate}, {opRename}, {opTouchO}, {opTouchO, opTouchO},
+		{"sym", opSwap}, {"sym", opSwapRm}, {"sym", opUnlink}, {"sym", opUnlink, opSwap}, {"sym", opSwap, opSwapRm}} {
 		dir, _ := os.MkdirTemp("", "verif-c38-conf-")
-		os.WriteFile(filepath.Join(dir, "conf.yml"), []byte("content-init"), 0o644)
+		if seq[0] == "sym" {
+			seq = seq[1:]
+			setupSym(dir)
+		} else {
+			os.WriteFile(filepath.Join(dir, "conf.yml"), []byte("content-init"), 0o644)
+		}
 		w, err := fsnotify.NewWatcher()
 		if err != nil {
 			vcommon.Harness("fsnotify: %v", err)
@@ -88,14 +126,7 @@ func conformance() int {
 		w.Add(dir)
 		var model []string
 		for i, k := range seq {
-			if k == opTouchO && i == 1 {
-				// second touch: file exists already
-				for _, e := range perform(dir, k, 1) {
-					model = append(model, e.name+":"+e.op.String())
-				}
-				continue
-			}
-			for _, e := range perform(dir, k, 0) {
+			for _, e := range perform(dir, k, 10+i) {
 				model = append(model, e.name+":"+e.op.String())
 			}
 		}
@@ -136,12 +167,21 @@ func conformance() int {
 	return n
 }
 
+// setupSym: conf.yml -> data/v0.yml
+func setupSym(dir string) {
+	os.MkdirAll(filepath.Join(dir, "data"), 0o755)
+	os.WriteFile(filepath.Join(dir, "data", "v0.yml"), []byte("content-init"), 0o644)
+	if err := os.Symlink(filepath.Join("data", "v0.yml"), filepath.Join(dir, "conf.yml")); err != nil {
+		panic(err)
+	}
+}
+
 type step struct {
 	kind string
 	gap  time.Duration // virtual time before the operation
 }
 
-func body(steps []step) func() {
+func body(steps []step, sym bool) func() {
 	return func() {
 		dir, err := os.MkdirTemp("", "verif-c38-")
 		if err != nil {
@@ -149,7 +189,11 @@ func body(steps []step) func() {
 		}
 		defer os.RemoveAll(dir)
 		f := filepath.Join(dir, "conf.yml")
-		os.WriteFile(f, []byte("content-init"), 0o644)
+		if sym {
+			setupSym(dir)
+		} else {
+			os.WriteFile(f, []byte("content-init"), 0o644)
+		}
 		w := &confwatcher.ConfWatcher{FilePath: f}
 		if err := w.Initialize(); err != nil {
 			panic(err)
@@ -239,8 +283,16 @@ func main() {
 		if len(steps) == 4 {
 			tb = 1 // length 4 (reduced alphabet) is explored with one deviation only
 		}
-		scn = append(scn, &vexplore.Scenario{Name: strings.Join(parts, ","), Desc: "file operations with virtual gaps", Body: body(steps), Check: check,
-			QuickBound: 1, ThoroughBound: tb, Horizon: 5000})
+		scn = append(scn, &vexplore.Scenario{Name: "file::" + strings.Join(parts, ","), Desc: "operations on a regular watched file, with virtual gaps", Body: body(steps, false), Check: check,
+			QuickBound: 1, ThoroughBound: tb, Horizon: 5000, Quiet: true})
+	}
+	addSym := func(steps []step, thoroughOnly bool) {
+		var parts []string
+		for _, s := range steps {
+			parts = append(parts, fmt.Sprintf("%s@+%v", s.kind, s.gap))
+		}
+		scn = append(scn, &vexplore.Scenario{Name: "symlink::" + strings.Join(parts, ","), Desc: "the watched path is a symbolic link (conf.yml -> data/vN.yml): swaps of the link, with and without deletion of the old target, with virtual gaps", Body: body(steps, true), Check: check,
+			QuickBound: 1, ThoroughBound: 2, Horizon: 5000, Quiet: true, ThoroughOnly: thoroughOnly})
 	}
 	thorough := false
 	for i, a := range os.Args {
@@ -296,13 +348,38 @@ func main() {
 		}
 		rec4(nil)
 	}
+	// symlink mode: lengths 1..3 over {swap, swaprm, unlink, other} with all gaps (length 3 in the quick tier: gaps {5 ms, 1.5 s} only)
+	var recS func(prefix []step)
+	recS = func(prefix []step) {
+		if len(prefix) > 0 {
+			reduced := true
+			for i, st := range prefix {
+				if i > 0 && st.gap != 5*time.Millisecond && st.gap != 1500*time.Millisecond {
+					reduced = false
+				}
+			}
+			addSym(prefix, len(prefix) == 3 && !reduced)
+		}
+		if len(prefix) == 3 {
+			return
+		}
+		for _, k := range symKinds {
+			for _, g := range gaps {
+				if len(prefix) == 0 && g != 0 {
+					continue
+				}
+				recS(append(append([]step{}, prefix...), step{k, g}))
+			}
+		}
+	}
+	recS(nil)
 	extra := func(r *vcommon.Run) (int64, int64, int64, string) {
 		r.Set("fsnotify_conformance_runs", validated)
-		return 0, 0, 0, fmt.Sprintf("scenarios = all sequences of <=%d operations over %v with virtual gaps %v before each; the event model was validated against the real fsnotify in %d runs", maxLen, opKinds, gaps, validated)
+		return 0, 0, 0, fmt.Sprintf("scenarios = all sequences of <=%d operations over %v (regular file) and of <=3 operations over {swap, swaprm, unlink, other} (watched path is a symbolic link) with virtual gaps %v before each; the event model was validated against the real fsnotify in %d runs", maxLen, opKinds, gaps, validated)
 	}
 	vexplore.MainWith("C38", scn, []string{
 		"fsnotify is replaced by a fake watcher fed by the harness; its event model is checked against the real fsnotify at start-up (set of (name, op) per operation)",
 		"time is virtual; file system calls (Stat, EvalSymlinks, ReadFile) are real",
-		"symlink swaps are not in the alphabet",
+		"symlink mode: the link is re-pointed atomically (temporary link renamed over it) to a new target in a sub-directory; in-place writes to the target (invisible to a watcher of the link's directory) are not in the alphabet",
 	}, extra)
 }
